@@ -37,7 +37,7 @@ func init() {
 			"multipart bodies are compared after decoding (field/file names and contents); the boundary value is ignored",
 			"the maximum-response-size rule is asserted for buffered mode (error) and, for streaming mode, as 'the call does not fail and the body stream never yields more than the body'",
 		},
-		RequiredProbes: []string{"body-bytes", "body-stream-n", "body-stream-unknown", "body-limited", "body-form", "body-multipart", "resp-fixed", "resp-chunked", "resp-close-delimited", "resp-bodiless", "resp-100-continue", "resp-trailers", "stream-mode", "limit-below", "conn-reused", "e2e", "fragments", "basic-auth", "proxy-form"},
+		RequiredProbes: []string{"body-bytes", "body-stream-n", "body-stream-unknown", "body-limited", "body-form", "body-multipart", "resp-fixed", "resp-chunked", "resp-close-delimited", "resp-bodiless", "resp-100-continue", "resp-trailers", "stream-mode", "limit-below", "conn-reused", "e2e", "fragments", "basic-auth", "proxy-form", "resp-set-cookies"},
 	}
 }
 
@@ -395,7 +395,12 @@ func (r *c11req) apply(req *protocol.Request, tp *core.Tape) {
 		}
 		req.SetMultipartFields(fs...)
 		if r.mfile[0] != "" {
-			req.SetFileReader(r.mfile[0], r.mfile[1], strings.NewReader(r.mfile[2]))
+			// a reader that returns its content in short pieces (first read short, not at EOF)
+			fr := &pieceReader{data: []byte(r.mfile[2]), eofw: tp.Choose("feofw", 2) == 1}
+			for i := 0; i < 6; i++ {
+				fr.sizes = append(fr.sizes, 1+tp.Choose("fsz2", 700))
+			}
+			req.SetFileReader(r.mfile[0], r.mfile[1], fr)
 		}
 	}
 }
@@ -586,6 +591,11 @@ func genC11Resp(tp *core.Tape, ep *core.Episode, i int, method string, last bool
 	m.Headers = []wire.Header{{K: "X-Resp", V: fmt.Sprintf("r%d", i)}, {K: "Content-Type", V: "application/x-sim"}}
 	if tp.Chance("rhdr2", 1, 3) {
 		m.Headers = append(m.Headers, wire.Header{K: "X-Resp", V: "second"}, wire.Header{K: "x-lower", V: "v"})
+	}
+	if tp.Chance("setcookies", 1, 3) {
+		// several Set-Cookie fields, some sharing the cookie name (legal: they differ in Path/Domain)
+		m.Headers = append(m.Headers, wire.Header{K: "Set-Cookie", V: "sid=1; Path=/"}, wire.Header{K: "Set-Cookie", V: "sid=2; Path=/app"}, wire.Header{K: "Set-Cookie", V: "other=3"})
+		ep.Probe("resp-set-cookies")
 	}
 	switch kind {
 	case 0:
